@@ -2,6 +2,7 @@
 from __future__ import annotations
 
 import types
+from vt.stubs.ns import StubNS
 
 import z3
 
@@ -19,7 +20,7 @@ st = loader.load("state")
 st.stage = S.STAGE
 st.scan_p = J.scan_p
 st.scan = lax_stub.scan
-st.jex = types.SimpleNamespace(core=types.SimpleNamespace(jaxpr_as_fun=J.jaxpr_as_fun))
+st.jex = StubNS(core=StubNS(jaxpr_as_fun=J.jaxpr_as_fun))
 st.safe_map, st.split_list = J.safe_map, J.split_list
 
 
@@ -195,7 +196,7 @@ class StateScanStep(_NoReplay):
     along the iteration axis and merged UNDER THE NAMESPACE PATH CURRENT AT THE SCAN (merging into, not
     replacing, namespaces that already exist); carry/outputs are those of the plain scan"""
 
-    cases = ["root", "inside_namespace", "body_namespace_already_exists", "two_saves_same_name_in_body"]
+    cases = ["root", "inside_namespace", "body_namespace_already_exists", "body_namespace_depth2_already_exists", "two_saves_same_name_in_body"]
 
     def call(self, case):
         self.case = case
@@ -204,6 +205,8 @@ class StateScanStep(_NoReplay):
         stack = ["ns"] if case == "inside_namespace" else []
         if case == "body_namespace_already_exists":
             self.col["inner"] = {"z": self.other}
+        if case == "body_namespace_depth2_already_exists":
+            self.col["outer"] = {"inner": {"z": self.other}, "sib": self.other}
         self.it = st.State(self.col, stack)
         # body(const, carry, x): save(x=carry-derived value) [inside namespace "inner" for that case]; returns (f(carry,x), g)
         cst, car, xv = J.Var("cst"), J.Var("car"), J.Var("xv")
@@ -213,6 +216,9 @@ class StateScanStep(_NoReplay):
         tag = J.Eqn(site(st.state_p, name="x"), [nc], [o1], {})
         if case == "body_namespace_already_exists":
             eqns += [J.Eqn(site(st.namespace_push_p, namespace="inner"), [], [], {}), tag, J.Eqn(site(st.namespace_pop_p), [], [], {})]
+        elif case == "body_namespace_depth2_already_exists":
+            eqns += [J.Eqn(site(st.namespace_push_p, namespace="outer"), [], [], {}), J.Eqn(site(st.namespace_push_p, namespace="inner"), [], [], {}), tag,
+                     J.Eqn(site(st.namespace_pop_p), [], [], {}), J.Eqn(site(st.namespace_pop_p), [], [], {})]
         elif case == "two_saves_same_name_in_body":
             eqns += [J.Eqn(site(st.state_p, name="x"), [car], [o2], {}), tag]
         else:
@@ -250,6 +256,10 @@ class StateScanStep(_NoReplay):
         if case == "body_namespace_already_exists":
             yield "existing_namespace_merged_not_replaced", isinstance(self.col.get("inner"), dict) and self.col["inner"].get("z") is self.other and "x" in self.col["inner"]
             node = self.col.get("inner", {})
+        if case == "body_namespace_depth2_already_exists":
+            o = self.col.get("outer", {})
+            yield "nested_existing_namespace_merged_at_every_level", isinstance(o, dict) and o.get("sib") is self.other and isinstance(o.get("inner"), dict) and o["inner"].get("z") is self.other and "x" in o["inner"]
+            node = o.get("inner", {}) if isinstance(o, dict) else {}
         stacked = node.get("x") if isinstance(node, dict) else None
         yield "saved_values_stacked_along_iteration_axis", isinstance(stacked, Tensor) and stacked.ndim == 1 and z3.eq(_lift(stacked.shape[0]), self.T)
         if isinstance(stacked, Tensor):
@@ -480,6 +490,56 @@ class NsPushPop(_NoReplay):
                 yield "batch_rule_keeps_the_namespace", b[0]["elab"].get("namespace") == "ns"
 
 
+@contract("genjax.state:_nested_dict_merge", ["C19", "C18"])
+class NestedDictMerge(_NoReplay):
+    """unbounded depth by induction on nesting: for a generic entry (key, value) of src, if both value and dst[key]
+    are dicts the merge RECURSES into (dst[key], value) in place and writes nothing else; otherwise dst[key] = value
+    (a later write replaces); no other key of dst is touched"""
+
+    cases = ["both_dicts", "value_dict_dst_missing_or_leaf", "value_leaf"]
+
+    def call(self, case):
+        pc = loops.pieces(st._nested_dict_merge, 0)
+        self.pc = pc
+        self.key = atom_sym("key")
+        Has = z3.Function(engine().fresh_name("HasDst"), Atom, z3.BoolSort())
+        self.Has = Has
+        self.existing_dict = {"__existing__": 1}
+        self.existing_leaf = value("existing_leaf")
+        if case == "both_dicts":
+            get = lambda k: self.existing_dict
+            engine().assume(Has(self.key.e))
+        else:
+            get = lambda k: self.existing_leaf
+        self.dst = SymDict("dst", init_has=lambda k: Has(k), init_get=get)
+        self.val = {"__incoming__": 2} if case != "value_leaf" else value("incoming_leaf")
+        self.rec = []
+        outer = self
+        self._o = st._nested_dict_merge
+        st._nested_dict_merge = lambda d, s_: outer.rec.append((d, s_))
+        base = {n: None for n in pc["locals"]}
+        base.update(dst=self.dst, src=None)
+        tg = pc["targets"]
+        base[tg[0]], base[tg[1]] = self.key, self.val
+        try:
+            return self.real(pc["body"], **base)
+        finally:
+            st._nested_dict_merge = self._o
+
+    def ensures(self, case, path):
+        yield "does_not_raise", path.outcome == "return"
+        if path.outcome != "return":
+            return
+        w = self.dst.writes
+        if case == "both_dicts":
+            yield "recurses_into_(dst[key], value)_in_place", len(self.rec) == 1 and self.rec[0][0] is self.existing_dict and self.rec[0][1] is self.val
+            yield "existing_namespace_object_kept(no_overwrite)", len(w) == 0
+        else:
+            yield "no_recursion", not self.rec
+            yield "dst[key]_set_to_value_and_nothing_else_written", len(w) == 1 and z3.eq(w[0][0], self.key.e) and w[0][1] is self.val
+        yield "iterates_over_src_items", self.pc["iter_src"].replace(" ", "") == "src.items()"
+
+
 # ------------------------------------------------------------------------------------------------
 # _nested_dict_set / _nested_dict_get: unbounded namespace depth by loop invariant on the extracted pieces
 
@@ -542,3 +602,7 @@ class NestedDictSet(_NoReplay):
         kept = len(w) == 0 and new is self.child.get(str(self.ns.e))
         yield "descends_into_existing_child_or_creates_empty", z3.If(existed, z3.BoolVal(kept), z3.BoolVal(created))
         yield "nothing_else_written", len(w) <= 1
+
+from vt.contract import canary as _canary  # noqa: E402
+
+_canary(StateScanStep, "inside_namespace", "lane_t_is_the_value_saved_in_iteration_t")
